@@ -99,10 +99,11 @@ def s1(ck, an):
     aps = [c for c in fm.calls_named("add_prices")]
     y_ok = r_ok = False
     for c in aps:
-        a0 = ast.unparse(c.args[0]) if c.args else ""
-        rest = [ast.unparse(a) for a in c.args[1:]] + [f"{k.arg}={ast.unparse(k.value)}" for k in c.keywords]
+        at_c = fm.node_of(c).id
+        a0 = fm.sym.canon(c.args[0], at_c) if c.args else ""
+        rest = [fm.sym.canon(a, at_c) for a in c.args[1:]] + [f"{k.arg}={fm.sym.canon(k.value, at_c)}" for k in c.keywords]
         lp = next((p for p in parents(c) if isinstance(p, ast.For)), None)
-        if lp is not None and ast.unparse(lp.iter) == "Y.columns" and a0 == f"Y[[{lp.target.id}]]" and rest in (["spread"], ["spread=spread"]):
+        if lp is not None and fm.sym.canon(lp.iter) == "Y.columns" and isinstance(lp.target, ast.Name) and a0 == specv(fm, f"Y[[{lp.target.id}]]", at_c).key() and rest in (["spread"], ["spread=spread"]):
             y_ok = True
         if a0 == "rate.to_frame()" and not rest and lp is None:
             r_ok = True
@@ -273,9 +274,11 @@ def s4(ck, an):
     ok = False
     for lp in pre:
         sg = fp.syntactic_guards(lp.body[0]) if lp.body else []
-        if ast.unparse(lp.iter) == "range(self.queue.maxlen)" and any(p[0] == "is" and "None" in (p[1], p[2]) and "self.last_event" in (p[1], p[2]) and p[3] for p in sg):
-            body = [ast.unparse(b) for b in lp.body]
-            ok = body == [f"self.queue.append([{ev}.to_list()])"]
+        if fp.sym.canon(lp.iter) == "range(self.queue.maxlen)" and any(p[0] == "is" and "None" in (p[1], p[2]) and "self.last_event" in (p[1], p[2]) and p[3] for p in sg):
+            # the loop body appends the event's row (possibly via a temporary) and does nothing else to the queue
+            apps_ = [c for c in ast.walk(lp) if isinstance(c, ast.Call) and isinstance(c.func, ast.Attribute) and c.func.attr == "append" and fp.sym.canon(c.func.value) == "self.queue"]
+            others_ = [b for b in lp.body if not isinstance(b, (ast.Assign, ast.Pass)) and not (isinstance(b, ast.Expr) and any(b.value is c for c in apps_))]
+            ok = len(apps_) == 1 and not others_ and len(apps_[0].args) == 1 and fp.sym.canon(apps_[0].args[0]) == specv(fp, f"[{ev}.to_list()]").key()
     ck.check(ok, "PATHCOUNT", "S4.prefill-on-first-event", fp.f.short, fp.f.loc, "on the first observation the queue is filled to capacity with that observation (a full window is always served)",
              "the queue is not pre-filled to maxlen on the first observation", construct="if self.last_event is None: for _ in range(self.queue.maxlen): self.queue.append([...])")
     le = [s for s in assigns_to_attr(fp, "last_event")]
@@ -316,7 +319,7 @@ def verified(ck, an):
     for short in ("TradingEnv.reset", "TradingEnv.step"):
         f2 = an.fa(short)
         cs = [c for c in f2.calls_to("IState.__call__") if isinstance(c, ast.Call)]
-        ck.check(bool(cs) and all([ast.unparse(a) for a in c.args] == ["self._verify_state"] for c in cs), "ARGFLOW", "S4.state-called-with-verify-flag", f2.f.short, f2.f.loc, "the state is produced with the environment's verify flag",
+        ck.check(bool(cs) and all([f2.sym.canon(a) for a in c.args] == ["self._verify_state"] for c in cs), "ARGFLOW", "S4.state-called-with-verify-flag", f2.f.short, f2.f.loc, "the state is produced with the environment's verify flag",
                  "state() is not called with self._verify_state", construct="self.state(self._verify_state)")
 
 
